@@ -23,7 +23,7 @@ func init() {
 			"non-trivial = >=2 segments or a slice/negative index; distinct = (selector text, data).",
 		Assumptions: []string{
 			"reference interpreter ref.Select (90 lines, from the property text; Python slice semantics), self-tested against vectors of the repository's selector tests",
-			"not judged (left open by the property): a failing optional slice/iterator, and what later segments do after an optional field/index yielded 'no value'",
+			"not judged (left open by the property): a failing optional slice/iterator (also on 'no value'); after an optional field/index yielded 'no value' the remaining segments are resolved against it: identity keeps it, non-optional segments fail, optional field/index keep it",
 			"strings are valid UTF-8; field names contain no quote, colon or backslash",
 		},
 		Shards:      shards(8, 16),
